@@ -784,29 +784,34 @@ def run_exec(ck, binp, test, lines, tag, timeout=900):
     return open(fo).read().splitlines()
 
 
-def coq_false_ix(ck, name, imports, items, nsh):
-    """items: list of coq terms of type list bool; returns sorted list of (item index, sub index) that are false, or None"""
-    hdr = "From Coq Require Import String ZArith.\nFrom Drummer.Model Require Import %s.\nOpen Scope N_scope.\nDefinition cases : list (list bool) := [\n" % imports
-    shards = [list(range(i, len(items), nsh)) for i in range(nsh)]
-    jobs = []
-    for si, ixs in enumerate(shards):
-        body = ";\n".join(items[i] for i in ixs)
-        jobs.append(("%s%d" % (name, si), hdr + body + "\n].\nDefinition M := Eval vm_compute in map false_ix cases.\nPrint M.\n"))
-    outs = ck.coq_eval_par(jobs, timeout=3000)
-    bad = []
-    for si, (rc, out) in enumerate(outs):
+def coq_false_ix_multi(ck, batches):
+    """batches: list of (name, imports, items (coq terms of type list bool), number of shards). All shards of all batches are
+    evaluated by one parallel coqc run. Returns one sorted list of (item index, sub index) that are false per batch, or None"""
+    jobs, where = [], []
+    for bi, (name, imports, items, nsh) in enumerate(batches):
+        hdr = "From Coq Require Import String ZArith.\nFrom Drummer.Model Require Import %s.\nOpen Scope N_scope.\nDefinition cases : list (list bool) := [\n" % imports
+        for si in range(nsh):
+            ixs = list(range(si, len(items), nsh))
+            if not ixs:
+                continue
+            body = ";\n".join(items[i] for i in ixs)
+            jobs.append(("%s%d" % (name, si), hdr + body + "\n].\nDefinition M := Eval vm_compute in map false_ix cases.\nPrint M.\n"))
+            where.append((bi, ixs))
+    outs = ck.coq_eval_par(jobs, timeout=3000) if jobs else []
+    bad = [[] for _ in batches]
+    for (bi, ixs), (rc, out) in zip(where, outs):
         m = re.search(r"M\s*=\s*(\[.*\])\s*:\s*list", out.replace("\n", " ")) if rc == 0 else None
         if not m:
             ck.violation("model evaluation failed (coqc)", {"kind": "coq-eval", "rc": rc, "out_tail": out[-3000:]}, found_input=False)
             return None
         inner = re.findall(r"\[([^\[\]]*)\]", m.group(1)[1:-1])
-        if len(inner) != len(shards[si]):
+        if len(inner) != len(ixs):
             ck.violation("model evaluation output not understood", {"kind": "coq-eval", "out_tail": out[-2000:]}, found_input=False)
             return None
         for j, body in enumerate(inner):
             for x in [y for y in body.split(";") if y.strip()]:
-                bad.append((shards[si][j], int(re.sub(r"%\w+", "", x).strip())))
-    return sorted(bad)
+                bad[bi].append((ixs[j], int(re.sub(r"%\w+", "", x).strip())))
+    return [sorted(b) for b in bad]
 
 
 def run(ck):
@@ -1092,47 +1097,38 @@ def run(ck):
     squeeze_diff = 0
     outside_diff = 0
     mism = []
-    if items:
-        bad = coq_false_ix(ck, "c07f", "Base Register Jepsen JepsenRun", items, 16 if len(items) > 600 else 4)
-        if bad is None:
-            return
-        n_model += len(items)
-        for (ii, sub) in bad:
-            ci = item_case[ii]
-            if sub == 3:     # information only: byte-exact text
-                exact_diff += 1
-                continue
-            if sub == 2:     # information only: text up to column alignment
-                squeeze_diff += 1
-                continue
-            if clean_a[ci]:
-                mism.append(("format (what the parser reads in each line)" if sub == 0 else "parse", fcases[ci][2], lines[ci][:600], fres[ci][:600], items[ii][:1500]))
-    if titems:
-        bad = coq_false_ix(ck, "c07t", "Base Register Jepsen JepsenRun JepsenText JepsenTextRun", titems, 8 if len(titems) > 600 else 4)
-        if bad is None:
-            return
-        n_model += len(titems)
-        for (ii, sub) in bad:
-            ci = titem_case[ii]
-            if sub < 2:
-                mism.append(("text rendering (harness vs JepsenText.render)" if sub == 0 else "text_ok (is this a text form)", tcases[ci]["origin"],
-                             tlines[ci][:600], tres[ci][:600], titems[ii][:1500]))
-            elif not text_form_ok(tcases[ci]["tl"]):
-                # a stray "\r" (not followed by "\n") or a terminator inside a "line": no text form in the sense of JepsenText.v, the
-                # property has no opinion on how such a text is split into lines; information only
-                outside_diff += 1
-            elif clean_c[ci]:
-                mism.append(("parse of a hand-written text (%s)" % tcases[ci]["variant"], tcases[ci]["origin"], tlines[ci][:600], tres[ci][:600], titems[ii][:1500]))
-    if pitems:
-        bad = coq_false_ix(ck, "c07p", "Base Jepsen Recorder RecorderAtomic RecorderRun", pitems, 16 if len(pitems) > 600 else 4)
-        if bad is None:
-            return
-        n_model += len(pitems)
-        for (ii, sub) in bad:
-            ci = pitem_case[ii]
-            if clean_b[ci]:
-                mism.append(("protocol-trace (recorder model)" if sub == 0 else "protocol-trace (recorder + atomic register model)", "script",
-                             plines[ci][:600], ev_go(blocks[ci]["events"])[:600], pitems[ii][:3000]))
+    bads = coq_false_ix_multi(ck, [("c07f", "Base Register Jepsen JepsenRun", items, 16 if len(items) > 600 else 6),
+                                   ("c07t", "Base Register Jepsen JepsenRun JepsenText JepsenTextRun", titems, 8 if len(titems) > 600 else 4),
+                                   ("c07p", "Base Jepsen Recorder RecorderAtomic RecorderRun", pitems, 16 if len(pitems) > 600 else 6)])
+    if bads is None:
+        return
+    n_model += len(items) + len(titems) + len(pitems)
+    for (ii, sub) in bads[0]:
+        ci = item_case[ii]
+        if sub == 3:     # information only: byte-exact text
+            exact_diff += 1
+            continue
+        if sub == 2:     # information only: text up to column alignment
+            squeeze_diff += 1
+            continue
+        if clean_a[ci]:
+            mism.append(("format (what the parser reads in each line)" if sub == 0 else "parse", fcases[ci][2], lines[ci][:600], fres[ci][:600], items[ii][:1500]))
+    for (ii, sub) in bads[1]:
+        ci = titem_case[ii]
+        if sub < 2:
+            mism.append(("text rendering (harness vs JepsenText.render)" if sub == 0 else "text_ok (is this a text form)", tcases[ci]["origin"],
+                         tlines[ci][:600], tres[ci][:600], titems[ii][:1500]))
+        elif not text_form_ok(tcases[ci]["tl"]):
+            # a stray "\r" (not followed by "\n") or a terminator inside a "line": no text form in the sense of JepsenText.v, the
+            # property has no opinion on how such a text is split into lines; information only
+            outside_diff += 1
+        elif clean_c[ci]:
+            mism.append(("parse of a hand-written text (%s)" % tcases[ci]["variant"], tcases[ci]["origin"], tlines[ci][:600], tres[ci][:600], titems[ii][:1500]))
+    for (ii, sub) in bads[2]:
+        ci = pitem_case[ii]
+        if clean_b[ci]:
+            mism.append(("protocol-trace (recorder model)" if sub == 0 else "protocol-trace (recorder + atomic register model)", "script",
+                         plines[ci][:600], ev_go(blocks[ci]["events"])[:600], pitems[ii][:3000]))
     tm["coq_eval"] = round(time.time() - t0, 1)
     ck.cov["traces_validated_against_impl"] = n_model
     ck.cov["log_text_cases_not_byte_identical_to_model"] = exact_diff
